@@ -496,6 +496,10 @@ def grammar_pool(rng, n_random, usize=True, names="plain", max_nt=4, max_t=4, ma
     out = []
     for label, items, _cls in gen.families():
         out.append((label, items, gen.render(items), gen.to_oracle(items)))
+    if n_random >= 100:
+        # automata and tables past the limits of 8-bit indices (states, rules, terminals, nonterminals)
+        for label, items in gen.size_grammars(thorough=(n_random >= 3000)):
+            out.append((label, items, gen.render(items), gen.to_oracle(items)))
     for k in range(n_random):
         if k % 16 == 6:
             items = gen.long_production_grammar(rng)
